@@ -116,3 +116,36 @@ Proof. vm_compute. reflexivity. Qed.
    that cell on the path to that return (catches an early return before the bump, or a bump only reachable on another path) *)
 Lemma no_structural_write_without_bump_holds : version_leaks = [].
 Proof. reflexivity. Qed.
+
+(* ---------- generated per-path facts (vtable.py PathPass -> path_facts): for every public member function (each instantiation) the abstract
+   states (cells structurally written, cells bumped) in which a NORMAL return can be reached ---------- *)
+(* (1) on every path to a normal return, every cell that was structurally written was bumped: an early return before IncVersion, a bump
+       that only another path reaches, or a forgotten bump of one of two cells puts a state (written, not bumped) into the facts *)
+Definition state_ok (st : list string * list string) : bool := subset_s (fst st) (snd st).
+Definition path_row_ok (row : string * string * list (list string * list string)) : bool := forallb state_ok (snd row).
+Lemma all_return_paths_bump_holds : forallb path_row_ok path_facts = true.
+Proof. vm_compute. reflexivity. Qed.
+(* (2) every member the model classifies as a structural mutator HAS a normal return on which all the cells the model says it advances
+       were bumped (stronger than "a bump is reachable": the bump must be followed by a normal return).  Members that hand *this / the
+       nested container to ANOTHER object (MergeFrom; MergeTo of the maps) are exempt: their effect is the other object's summary. *)
+Definition delegating (cls name : string) : bool :=
+  String.eqb name "MergeFrom" || (String.eqb name "MergeTo" && (String.eqb cls "HashMap" || String.eqb cls "TreeMap")).
+Definition path_row_mutates (row : string * string * list (list string * list string)) : bool :=
+  let cls := fst (fst row) in let meth := snd (fst row) in
+  if ends_const meth || delegating cls (name_of meth) then true
+  else match required cls (name_of meth) with
+       | Some (r :: rs) => existsb (fun st => subset_s (r :: rs) (snd st)) (snd row)
+       | _ => true
+       end.
+Lemma every_mutator_has_a_bumping_return_holds : forallb path_row_mutates path_facts = true.
+Proof. vm_compute. reflexivity. Qed.
+(* (3) const members and the members the model treats as non-modifying neither write a structural field nor bump on ANY path *)
+Definition path_row_pure (row : string * string * list (list string * list string)) : bool :=
+  let cls := fst (fst row) in let meth := snd (fst row) in
+  let pure := forallb (fun st => match fst st, snd st with [], [] => true | _, _ => false end) (snd row) in
+  if ends_const meth then pure
+  else match required cls (name_of meth) with Some [] => pure | Some _ => true | None => false end.
+Lemma nonmutators_never_write_or_bump_holds : forallb path_row_pure path_facts = true.
+Proof. vm_compute. reflexivity. Qed.
+Lemma path_facts_nonempty : Nat.leb 300 (length path_facts) = true.
+Proof. vm_compute. reflexivity. Qed.
